@@ -39,18 +39,21 @@ Render == Check(t, l, "Render", RenderOk(ToSetOf(E.rt)) /\ RenderOk(ToSetOf(E.rw
 Matches(v) == CASE v = "ok" -> O = {"ok"} [] v = "err" -> O # {"ok"} [] OTHER -> TRUE
 Bound(c) == Check(t, l, "InputBinding", (l = 1 /\ IsSpec) => c)
 
+Plain == pm.short \/ pm.opcode = OpQuery
 TMsg ==
     /\ E.op = "msg"
     /\ Bound(R.w = Wire(kind, lay, post) /\ (kind = "optm" => R.cur = OptmCur /\ R.len = Len(OptmRdata(lay))))
     /\ Check(t, l, "OutcomeSet", MsgAllowed(pm, E.opts, IsSpec /\ (pm.short \/ ~Signed(pm)), O))
-    /\ Check(t, l, "Verdict", IsSpec => MsgVerdictOk(pm, E.opts, O))
+    \* the reference reader knows the sections of a QUERY-shaped message; for other opcodes
+    \* (UPDATE: RFC 2136 section rules) only the outcome-set clauses apply
+    /\ Check(t, l, "Verdict", (IsSpec /\ Plain) => MsgVerdictOk(pm, E.opts, O))
     \* what continue_on_error records is what a strict reading would have raised: the
     \* format-error family when the input is known to carry no TSIG record
     /\ Check(t, l, "CoeErrorFamily", \A i \in 1..Len(E.errs) :
             (IF IsSpec /\ (pm.short \/ ~Signed(pm)) THEN "FormError" ELSE "DNSException") \in ToSetOf(E.errs[i].tags))
-    /\ Check(t, l, "Bookkeeping", (IsSpec /\ E.opts[4] = 1 /\ O = {"ok"}) =>
+    /\ Check(t, l, "Bookkeeping", (IsSpec /\ Plain /\ E.opts[4] = 1 /\ O = {"ok"}) =>
                                       Bookkeeping(pm, E.opts, [i \in 1..Len(E.errs) |-> E.errs[i].off]))
-    /\ Check(t, l, "Records", (IsSpec /\ O = {"ok"} /\ AllDecided(pm)) =>
+    /\ Check(t, l, "Records", (IsSpec /\ Plain /\ O = {"ok"} /\ AllDecided(pm)) =>
                                   <<E.n[2], E.n[3], E.n[4]>> = (IF E.opts[3] = 1 THEN <<0, 0, 0>>
                                                                 ELSE <<GoodCount(pm, 1), GoodCount(pm, 2), GoodCount(pm, 3)>>))
     /\ Render /\ Adv
